@@ -257,8 +257,9 @@ def handleEvent (d : DS) (toks : List String) : DS × String :=
       | some _ => (d, "skip")
       | none => (d, "0 err")
     else
-      let st := d.st
-      if !st.cancelled && !allIdle st.workers then fail d "returned while a fetch was pending"
+      -- after a cancellation the workers still holding a range have given it up (`abandon`, enabled only then)
+      let st := if d.st.cancelled then (List.range d.st.workers.length).foldl (fun st w => step env st (.abandon w)) d.st else d.st
+      if !allIdle st.workers then fail d "returned while a fetch was pending (and the context was not cancelled)"
       else if !d.awaiting.isEmpty then fail d "returned with a fetched batch never handed to the callback"
       else
         let st := if st.closed then some st else if closeEnabled st then some (step env st .close) else none
